@@ -1206,8 +1206,30 @@ func c05GenPMTBases() []c05PMTBase {
 			{Program: 4, Version: 2, CurrentNext: true, PCRPID: 0x21, ProgDescs: []ref.Desc{lang},
 				Streams: []ref.Stream{{Type: 0x1B, PID: 0x21}, {Type: 0x0F, PID: 0x22, Descs: []ref.Desc{lang, {Tag: 0x52, Body: []byte{1}}, {Tag: 0x7F, Body: []byte{0x20, 'e', 'n', 'g', 0x40}}}}}},
 		}
+		var payloads [][]byte
 		for _, sec := range secs {
-			p := append(ref.Pointer(0), sec.Bytes()...)
+			payloads = append(payloads, append(ref.Pointer(0), sec.Bytes()...))
+		}
+		// tables that fill their packet to within 0..3 bytes (pointer_field + section = 181..184 bytes), with a
+		// CRC_32 whose second byte is 00 / 01: an ES_info_length enlarged by 1..3 then swallows CRC bytes that read
+		// like a tiny descriptor, and whatever is rebuilt from the table is LONGER than the table was
+		for total := 181; total <= 184; total++ {
+			for _, target := range []uint32{0xA5000102, 0xA5010203} {
+				fill := total - 1 - (3 + 9 + 5 + 5 + 6 + 6 + 2 + 4) // what the padding descriptor has to hold
+				sec := ref.PMTSection{Program: 5, Version: 4, CurrentNext: true, PCRPID: 0x65, Streams: []ref.Stream{{Type: 0x1B, PID: 0x65},
+					{Type: 0x0F, PID: 0x66, Descs: []ref.Desc{{Tag: 0x05, Body: []byte("FORG")}, lang, {Tag: 0xFE, Body: make([]byte, fill)}}}}}
+				b := sec.Bytes()
+				if len(b)+1 != total {
+					panic(fmt.Sprintf("c05: packet-filling table has %d bytes, want %d", len(b)+1, total))
+				}
+				off := bytes.Index(b, []byte("FORG"))
+				if off < 0 || !ref.ForgeCRC(b[:len(b)-4], off, target) {
+					panic("c05: cannot forge the CRC of the packet-filling table")
+				}
+				payloads = append(payloads, append(ref.Pointer(0), ref.WithCRC(b[:len(b)-4])...))
+			}
+		}
+		for _, p := range payloads {
 			b := c05PMTBase{payload: p}
 			b.sl = int(p[2]&0x0F)<<8 | int(p[3])
 			b.pil = int(p[11]&0x0F)<<8 | int(p[12])
@@ -1544,7 +1566,7 @@ func init() {
 			c05Scenario("seed-double-mutations", "mut2", "pairs of mutations (position1 < position2, both from 16 interesting values 00,01,02,03,0D,34,47,7F,80,90,B0,F0,FC,FD,FE,FF) on every 4th seed (thorough: every seed) of every byte-string and packet entry point."+common),
 			c05Scenario("long-inputs", "long", "index-wraparound family: for every seed and every cut position up to 24 (thorough 40), the valid prefix is extended with each of 6 fills (00, 80, 90, FF, (01 FC)*, (01 00)*) to total lengths {255,256,257,300} and, for the SCTE-35/PMT/accumulator-predicate entry points, {4096,65535,65536,65537,65545,65600}, each also with 0xFFFF planted at every 2-byte position before the cut (makes 8-/16-bit cursors and length fields wrap; at 65600 bytes also 0xFFFE and 0xFFFC, which 64 KiB of two-byte items satisfy exactly); plus two-segment tails (a run of 80/90/FF ending at every position 243..258 followed by 00/10/7F, total 300 bytes) for chains that end next to the 8-bit cursor limit."+common),
 			c05Scenario("generated-scte35", "gen-scte35", "structure-aware SCTE-35 inputs built by the reference encoder with all lengths and the CRC consistent: every descriptor-loop shape of <=3 descriptors over {segmentation, foreign tag 00, foreign tag 01} x 46 UPID/MID variants of the segmentation descriptors (none, single ADI, MIDs of 1..3 entries, stream-switch style MIDs whose ADI text is one of {BLACKOUT, BLACKOUT:, BLACKOUT:abc, xxBLACKOUT, empty, BLACKOUT:BLACKOUT, BLACKOU} and whose ADS text matches / contains / lacks the rotation keyword, delivery restricted or not); each section whole and cut at every byte; all getters incl. StreamSwitchSignalId, the state tracker, String and re-encoding run on whatever decodes."+common),
-			c05Scenario("generated-pmt", "gen-pmt", "structure-aware PMT inputs: 4 reference-built tables x every combination of deltas on four RELATED length fields (section_length -8..+8, program_info_length -3..+3, ES_info_length of the last described stream -6..+6, its last descriptor_length -4..+4), each with the stale CRC_32 and with a CRC_32 recomputed where the new section_length puts it; run through NewPMT (all getters, printers), the accumulator completion predicate and ExtractCRC."+common),
+			c05Scenario("generated-pmt", "gen-pmt", "structure-aware PMT inputs: 4 reference-built tables and 8 tables that fill their packet to within 0..3 bytes with a forged CRC_32 whose second byte is 00/01 (rebuilt output may then be longer than the input) x every combination of deltas on four RELATED length fields (section_length -8..+8, program_info_length -3..+3, ES_info_length of the last described stream -6..+6, its last descriptor_length -4..+4), each with the stale CRC_32 and with a CRC_32 recomputed where the new section_length puts it; run through NewPMT (all getters, printers), the accumulator completion predicate, ExtractCRC and the filter on the packetised payload."+common),
 			c05Scenario("periodic-long-payloads", "gen-periodic", "cursor-cycle family for the PMT entry points that take a whole PID payload (NewPMT, the accumulator completion predicate, FilterPMTPacketsToPids on the payload cut into 184-byte packets): pointer_field 0 | a first section with table_id {00, 42, 02} and section_length 0..8 | a well-formed one-stream PMT section | 0xFF, overlaid with a chain of elementary-stream entries of constant step {16, 256, 4096 (divisors of 2^16: a 16-bit cursor cycles), 5} that starts where a reader taking the first section for the PMT starts its stream loop (8 start phases through the PCR_PID), total lengths {4096, 65504, 65688, 66240} (356/357/360 packets), the stream PID of the PMT carried by no entry / the last entry before the 64 KiB mark and the last one / every entry; request lists: {0x65,0x66}, all PIDs NewPMT reports, one present + one absent; additionally at most as many packets out as in and input packets unchanged."+common),
 			c05Scenario("packet-grid", "grid", "packet accessors, modifiers and packet-level PSI helpers on packets with adaptation_field_control 0..3 x adaptation_field_length from 30 boundary values (thorough: all 256) x all 256 flag bytes x private-data length and extension length bytes from {00,01,7F,B0,FF} plus the four values around 'ends exactly on the last byte of the packet' for the given flags, placed where the flags put them."+common),
 			c05Scenario("stream-sequences", "streamseq", "stream readers (Sync, IsSynced, ReadPAT, ReadPMT, IOWriter Write/ReadFrom, the cli pipeline) on every sequence of <=3 packets from a 16-packet alphabet (good PAT/PMT, PMT split 3+rest, null, single-field corruptions: section_length 0x3FF, pointer_field 0xFF, ES_info_length/program_info_length 0xFFF, adaptation_field_length 0xFF/183, AF-only, no sync byte; and a two-packet unit on the PMT PID with two complete private sections reaching into the second packet and an incomplete third), whole and — for sequences of <=2 (quick: a subset) — cut at every byte length; default, one-byte-at-a-time, data-with-EOF, failing (injected error with data after half of the stream) and timeout readers."+common),
